@@ -142,7 +142,7 @@ def abstract(seq, src_size):
         elif n == "rename":
             toks.append("R")
         elif n == "utime":
-            toks.append("U")
+            toks.append("T" if t else "U")          # on the working file (before the rename) or on the destination
         elif n in ("write", "truncate"):
             if i == last:
                 toks.append("W" + b)
@@ -174,7 +174,7 @@ def abstract_prefix(seq, src_size):
         elif n == "rename":
             toks.append("R")
         elif n == "utime":
-            toks.append("U")
+            toks.append("T" if t else "U")          # on the working file (before the rename) or on the destination
         elif n in ("write", "truncate"):
             if i == last:
                 toks.append("W" + b)
